@@ -70,7 +70,10 @@ Definition property_url_attrs : list bytes := [B "href"; B "src"; B "action"; B 
 Definition other_url_attrs : list bytes :=
   [B "poster"; B "cite"; B "data"; B "background"; B "ping"; B "manifest"; B "longdesc"; B "codebase";
    B "xlink:href"].
-Definition url_attr (a : bytes) : bool := cc_mem a property_url_attrs || cc_mem a other_url_attrs.
+(* the javascript-scheme clause is judged on exactly the attributes the property names; the other
+   URL-valued attributes of HTML are listed for reference only (the engine either refuses actions in
+   them or treats them as plain text: poster, cite) *)
+Definition url_attr (a : bytes) : bool := cc_mem a property_url_attrs.
 Definition srcset_attr (a : bytes) : bool := bytes_eqb a (B "srcset") || bytes_eqb a (B "imagesrcset").
 
 (* ------------------------------------------------------------------ (i) markers in code positions *)
